@@ -7,6 +7,13 @@ Streams, in this order:
   inst          every primitive of the live registry x every field x pool values, ExternalModules with dict and
                 paramclass parameters, end to end through h.to_proto; observable Instance.parameters (+ module reference)
   malformed     objects no ParamValue can hold, non-string enums, ints beyond 64 bits, non-finite floats, missing required
+  overlap       (strengthening round) objects that pass SEVERAL isinstance tests of export_param_value / to_scalar, or are
+                subclass instances whose str() / repr() / format() differ from their content: members of (str, Enum) classes,
+                StrEnum, IntEnum, IntFlag, float- and Decimal-mixin enums, bools, str / int / float / Decimal / Literal /
+                Prefixed subclasses, a str that is also a Literal.  Through to_scalar, export_param_value, ExternalModule dict
+                and paramclass parameters (Scalar, Optional[str], own-Enum-typed and Any-typed fields) and every Scalar /
+                Optional[str] field of every primitive.  Cases are printed as `pyobj` (facets), evaluated by chk_*_obj; the
+                facets the harness declares are compared with the live object's (probe), coverage targets fail closed.
   numeric-spec / str-spec   the Coq numeric-string reader and str(Decimal) against CPython's decimal module (oracle)
 Values are handled here as exact data (ints, (sign, coefficient, exponent) triples, code-point lists); hdl21 is never imported."""
 import json, struct, re
@@ -16,7 +23,7 @@ from .core import cz, cbool
 
 IMPORTS = ("From Coq Require Import String Ascii.\n"
            "Require Import Hdl21.Base.PyInt Hdl21.Base.Dec Hdl21.Model.Prefixed Hdl21.Model.C13Params Hdl21.Spec.C13Spec "
-           "Hdl21.Corr.C03 Hdl21.Corr.C13.\nOpen Scope list_scope.")
+           "Hdl21.Model.C13Dispatch Hdl21.Spec.C13Overlap Hdl21.Corr.C03 Hdl21.Corr.C13.\nOpen Scope list_scope.")
 
 
 # ------------------------------------------------------------------------------------------ exact data
@@ -47,8 +54,22 @@ def fbits(x):
 
 # values: ("none",) ("int", z) ("flt", float) ("str", cps) ("lit", cps) ("pre", triple, q) ("dec", triple)
 #         ("enum", cls, member) ("other", tag)
+SIG = dict(strenum="s", StrEnum="s", strenum_v="s", strenum_t="s", sxe="n", intenum="i", intflag="i", fltenum="f", decenum="d",
+           bool="i", strsub="s", intsub="i", fltsub="f", decsub="d", litsub="s", presub="dq", strlit="ss")
+
+
+def obj_map(v, fs, fi, ff, fd):
+    """an ("obj", shape, content...) value with each content item converted according to the shape's signature"""
+    out = []
+    for t, c in zip(SIG[v[1]], v[2:]):
+        out.append(dict(s=fs, i=fi, f=ff, d=fd, n=lambda x: x, q=lambda x: x)[t](c))
+    return out
+
+
 def wire(v):
     k = v[0]
+    if k == "obj":
+        return ["obj", v[1]] + obj_map(v, list, str, lambda x: x.hex(), dstr)
     if k == "int":
         return ["int", str(v[1])]
     if k == "flt":
@@ -63,6 +84,8 @@ def wire(v):
 def jv(v):
     """JSON-able, canonical form of a value (keys, replays)"""
     k = v[0]
+    if k == "obj":
+        return ["obj", v[1]] + obj_map(v, lambda l: uncp(l) if all(32 <= c < 127 for c in l) else list(l), str, lambda x: x.hex(), dstr)
     if k == "flt":
         return ["flt", v[1].hex()]
     if k in ("pre", "dec"):
@@ -74,6 +97,8 @@ def jv(v):
 
 def unjv(j):
     k = j[0]
+    if k == "obj":
+        return ("obj", j[1]) + tuple(obj_map(j, lambda x: cp(x) if isinstance(x, str) else list(x), int, float.fromhex, lambda x: triple(Decimal(x))))
     if k == "flt":
         return ("flt", float.fromhex(j[1]))
     if k in ("pre", "dec"):
@@ -126,6 +151,91 @@ def c_value(v, enums):
     raise ValueError(k)
 
 
+# ---- facets (strengthening round): what the isinstance tests of the parameter path see of a value
+def no_facets():
+    return dict(none=False, str=None, enum=None, lit=None, pre=None, dec=None, int=None, flt=None)
+
+
+def facets(v, enums, sxe):
+    F = no_facets()
+    k = v[0]
+    if k == "none":
+        F["none"] = True
+    elif k == "int":
+        F["int"] = (v[1], False)
+    elif k == "flt":
+        F["flt"] = v[1]
+    elif k == "str":
+        F["str"] = list(v[1])
+    elif k == "lit":
+        F["lit"] = list(v[1])
+    elif k == "pre":
+        F["pre"] = (tuple(v[1]), v[2])
+    elif k == "dec":
+        F["dec"] = tuple(v[1])
+    elif k == "enum":
+        val = dict((m, x) for m, x in enums[v[1]])[v[2]]
+        F["enum"] = ("none",) if val is None else ("some", list(val))
+    elif k == "obj":
+        sh, c = v[1], v[2:]
+        if sh in ("strenum", "StrEnum"):
+            F.update(str=list(c[0]), enum=("some", list(c[0])))
+        elif sh == "strenum_v":
+            F.update(str=list(c[0]), enum=("some", cp("v:") + list(c[0])))
+        elif sh == "strenum_t":
+            F.update(str=list(c[0]), enum=("none",))
+        elif sh == "sxe":
+            val = dict((m, x) for m, x in sxe)[c[0]]
+            F.update(str=list(val), enum=("some", list(val)))
+        elif sh in ("intenum", "intflag"):
+            F.update(int=(c[0], False), enum=("none",))
+        elif sh == "fltenum":
+            F.update(flt=c[0], enum=("none",))
+        elif sh == "decenum":
+            F.update(dec=tuple(c[0]), enum=("none",))
+        elif sh == "bool":
+            F.update(int=(c[0], True))
+        elif sh == "strsub":
+            F.update(str=list(c[0]))
+        elif sh == "intsub":
+            F.update(int=(c[0], False))
+        elif sh == "fltsub":
+            F.update(flt=c[0])
+        elif sh == "decsub":
+            F.update(dec=tuple(c[0]))
+        elif sh == "litsub":
+            F.update(lit=list(c[0]))
+        elif sh == "presub":
+            F.update(pre=(tuple(c[0]), c[1]))
+        elif sh == "strlit":
+            F.update(str=list(c[0]), lit=list(c[1]))
+        else:
+            raise ValueError(sh)
+    elif k != "other":
+        raise ValueError(k)
+    return F
+
+
+def facets_probe_form(F):
+    """the facets in the JSON form harness/impl/c13.py probe() reports them"""
+    t3 = lambda t: [int(t[0]), str(t[1]), t[2]]
+    return dict(none=F["none"], str=F["str"], enum=(None if F["enum"] is None else list(F["enum"])), lit=F["lit"],
+                pre=(None if F["pre"] is None else [t3(F["pre"][0]), F["pre"][1]]), dec=(None if F["dec"] is None else t3(F["dec"])),
+                int=(None if F["int"] is None else [str(F["int"][0]), F["int"][1]]), flt=(None if F["flt"] is None else str(fbits(F["flt"]))))
+
+
+def c_opt(x, pr):
+    return "None" if x is None else f"(Some {pr(x)})"
+
+
+def c_obj(F):
+    en = "None" if F["enum"] is None else ("(Some None)" if F["enum"][0] == "none" else f"(Some (Some {c_str(F['enum'][1])}))")
+    return ("(mkObj " + cbool(F["none"]) + " " + c_opt(F["str"], c_str) + " " + en + " " + c_opt(F["lit"], c_str) + " "
+            + c_opt(F["pre"], lambda p: f"(mkP {c_dec(p[0])} {cz(p[1])})") + " " + c_opt(F["dec"], c_dec) + " "
+            + c_opt(F["int"], lambda zb: f"({cbig(zb[0])}, {cbool(zb[1])})") + " "
+            + c_opt(F["flt"], lambda x: f"({fbits(x)}, {c_str(cp(repr(float(x))))})") + ")")
+
+
 def c_pvalue(p):
     k = p[0]
     if k == "lit":
@@ -165,13 +275,17 @@ def c_vres(o):
     return "VExc"
 
 
-def c_call(job, enums):
+def c_call(job, enums, sxe=None):
+    """sxe given: the call is printed as an `ocall` (every value as a pyobj)"""
     t = job["tgt"]
     if t[0] == "prim":
         tgt = f"(TPrim {core.cstr(t[1])})"
     else:
         dom = "None" if t[2] is None else f"(Some {c_str(t[2])})"
         tgt = f"(TExt {cbool(t[1] == 'dict')} {dom} {c_str(t[3])})"
+    if sxe is not None:
+        ps = "; ".join(f"({c_str(k)}, {kind}, {c_obj(facets(v, enums, sxe))})" for k, kind, v in job["all"])
+        return f"(mkOCall {tgt} [{ps}])"
     ps = "; ".join(f"({c_str(k)}, {kind}, {c_value(v, enums)})" for k, kind, v in job["all"])
     return f"(mkCall {tgt} [{ps}])"
 
@@ -318,7 +432,142 @@ def gen_any(r, prefixes, enums):
         return ("enum", cls, r.choice(enums[cls])[0])
     if k < 0.96:
         return ("enum", "NE", r.choice(enums["NE"])[0])
-    return ("other", r.choice(["list", "tuple", "bytes", "complex", "dict", "object", "set"]))
+    return ("other", r.choice(["list", "tuple", "bytes", "complex", "dict", "object", "set", "fraction", "real"]))
+
+
+# ------------------------------------------------------------------------------------------ overlapping objects
+# where a shape may be given: "given" = stored as it is (export_param_value itself, dict entries, Any-typed fields),
+# "scalar" = to_scalar / Scalar-typed fields, "optstr" = Optional[str] fields.  Not in "scalar": float subclasses and float-mixin
+# enums (pydantic reads a float through str(), which those classes override: outside the model, see notes/C13.md).
+# Not in "optstr": str-and-Enum members whose Enum value differs from their characters (pydantic's lax Enum -> str coercion).
+SHAPES = dict(strenum=("given", "scalar", "optstr"), StrEnum=("given", "scalar", "optstr"), sxe=("given", "scalar", "optstr"),
+              strenum_v=("given", "scalar"), strenum_t=("given", "scalar"), intenum=("given", "scalar"), intflag=("given", "scalar"),
+              fltenum=("given",), decenum=("given", "scalar"), bool=("given", "scalar"), strsub=("given", "scalar", "optstr"),
+              intsub=("given", "scalar"), fltsub=("given",), decsub=("given", "scalar"), litsub=("given", "scalar"),
+              presub=("given", "scalar"), strlit=("given", "scalar", "optstr"))
+SXE_MEMBERS = ["TYP", "FAST", "NUM", "EMPTY", "SP"]          # checked against the driver's class in run()
+
+
+def gen_obj(r, prefixes, ctx, shape=None):
+    sh = shape or r.choice([k for k, c in SHAPES.items() if ctx in c])
+    gt = lambda: cp(r.choice(["ff_n40C_1v95", "tt_025C_1v80", "lvt", "1e3", "", " 1_000 ", "nan", "-2.50e-7", "w/5", "é"])) if r.random() < 0.4 else gen_text(r)
+    if sh == "sxe":
+        return ("obj", sh, r.choice(SXE_MEMBERS))
+    if SIG[sh] == "s":
+        return ("obj", sh, gt())
+    if sh == "intflag":
+        return ("obj", sh, r.randint(0, 3))
+    if sh == "bool":
+        return ("obj", sh, r.randint(0, 1))
+    if SIG[sh] == "i":
+        return ("obj", sh, gen_int(r))
+    if SIG[sh] == "f":
+        return ("obj", sh, gen_float(r))
+    if SIG[sh] == "d":
+        return ("obj", sh, r.choice(boundary_triples()) if r.random() < 0.25 else gen_triple(r))
+    if sh == "presub":
+        return ("obj", sh, r.choice(boundary_triples()) if r.random() < 0.3 else gen_triple(r), r.choice(prefixes))
+    if sh == "strlit":
+        a = gt()
+        return ("obj", sh, a, a if r.random() < 0.6 else gt())
+    raise ValueError(sh)
+
+
+def overlap_jobs(r, n_ext, per_field, prims, xp_fields, prefixes, enums):
+    """instance calls carrying overlapping objects: dict entries, the paramclass XP (Scalar, Optional[str], own-Enum and
+    Any-typed fields), and every Scalar / Optional[Scalar] / Optional[str] field of every primitive"""
+    jobs = []
+    for _ in range(n_ext):
+        dom = r.choice([None, cp("dom")])
+        given, allp = [], []
+        for nm in r.sample(NAMES + ["corner", "flavor"], r.randint(1, 4)):
+            val = gen_obj(r, prefixes, "given") if r.random() < 0.7 else gen_any(r, prefixes, enums)
+            given.append([cp(nm), val])
+            allp.append((cp(nm), 4, val))
+        jobs.append(dict(tgt=["ext", "dict", dom, cp("X")], given=given, all=allp, entry="dict"))
+    for _ in range(n_ext):
+        given, allp = [], []
+        for fld in xp_fields:
+            nm, kind, dv = fld[0], fld[1], fld[2]
+            val = None
+            if kind in (0, 1) and (dv[0] == "req" or r.random() < 0.5):
+                val = gen_obj(r, prefixes, "scalar")
+            elif kind == 2 and r.random() < 0.5:
+                val = gen_obj(r, prefixes, "optstr")
+            elif nm == "se" and r.random() < 0.6:
+                val = ("obj", "sxe", r.choice(SXE_MEMBERS))
+            elif nm == "a" and r.random() < 0.8:
+                val = gen_obj(r, prefixes, "given")
+            if val is not None:
+                given.append([nm, val])
+            else:
+                val = tuple(dv)
+            allp.append((cp(nm), kind, val))
+        jobs.append(dict(tgt=["ext", "pc", r.choice([None, cp("my.domain")]), cp("nmos_lvt")], given=given, all=allp, entry="paramclass"))
+    for p in prims:
+        for i, fld in enumerate(p["fields"]):
+            for _ in range(per_field if fld[1] in (0, 1, 2) else 0):
+                v = gen_obj(r, prefixes, "scalar" if fld[1] < 2 else "optstr")
+                j = prim_job(r, p, i, prefixes, enums, v=v, minimal=True)
+                for g in j["given"]:                      # required fields of the same call: objects too, half of the time
+                    if g[0] != fld[0] and r.random() < 0.5:
+                        g[1] = gen_obj(r, prefixes, "scalar")
+                        j["all"] = [(k, kd, (g[1] if uncp(k) == g[0] else x)) for k, kd, x in j["all"]]
+                j["entry"] = "primitive"
+                jobs.append(j)
+    return jobs
+
+
+def check_probes(run, vals, enums, sxe):
+    """the facets this harness declares (and prints into the Coq cases) against the live objects; fail closed"""
+    distinct_vals = list({json.dumps(jv(v)): v for v in vals}.values())
+    probes = core.run_worker_sharded("c13", [wire(v) for v in distinct_vals], common=dict(kind="probe"))
+    out = {}
+    for v, pr in zip(distinct_vals, probes):
+        want = facets_probe_form(facets(v, enums, sxe))
+        if pr.get("bad") or pr["facets"] != want:
+            run.violation("C13:harness:facets", f"the harness describes {json.dumps(jv(v))[:200]} by facets the live object does not have: "
+                          f"declared {json.dumps(want)[:300]}, measured {json.dumps(pr)[:300]}", dict(kind="harness", case=jv(v)), found_input=False)
+            break
+        out[json.dumps(jv(v))] = pr
+    return out
+
+
+def measured_shape(pr):
+    """classify a live object by what was measured on it (its facets, its class), independent of the shape name the generator used"""
+    f = pr["facets"]
+    names = [k for k in ("str", "enum", "lit", "pre", "dec", "int", "flt") if f[k] is not None]
+    tag = "+".join(names) or "none"
+    if f["enum"] is not None:
+        tag += ":value-" + ("str" if f["enum"][0] == "some" else "other")
+        if f["str"] is not None and f["enum"][0] == "some" and f["enum"][1] != f["str"]:
+            tag += "-differs"
+    if f["int"] is not None and f["int"][1]:
+        tag += ":bool"
+    if f["str"] is not None and f["lit"] is not None and f["str"] != f["lit"]:
+        tag += ":text-differs"
+    if f["enum"] is None and pr["cls"] not in ("str", "int", "float", "Decimal", "Literal", "Prefixed", "NoneType", "bool"):
+        tag += ":sub"
+    return tag
+
+
+def hides_content(pr):
+    """str(x) differs from the characters of the str the object is (what protobuf must receive)"""
+    f = pr["facets"]
+    return f["str"] is not None and pr["texts"][0] != f["str"]
+
+
+SUBS = ["str:sub", "int:sub", "dec:sub", "lit:sub", "pre:sub", "str+lit:sub"]
+OVERLAP_TARGETS = {
+    "value": ["str+enum:value-str", "str+enum:value-str-differs", "str+enum:value-other", "enum+int:value-other", "enum+flt:value-other",
+              "enum+dec:value-other", "int:bool", "flt:sub", "str+lit:text-differs:sub"] + SUBS,
+    "scalar": ["str+enum:value-str", "str+enum:value-str-differs", "str+enum:value-other", "enum+int:value-other", "enum+dec:value-other",
+               "int:bool"] + SUBS,
+    "dict": ["str+enum:value-str", "str+enum:value-other", "enum+int:value-other", "enum+flt:value-other", "enum+dec:value-other", "int:bool",
+             "flt:sub"] + SUBS,
+    "paramclass": ["str+enum:value-str", "enum+int:value-other", "int:bool"] + SUBS,
+    "primitive": ["str+enum:value-str", "enum+int:value-other", "int:bool"] + SUBS,
+}
 
 
 NAMES = ["w", "l", "a b", "", "x=1", "very_long_parameter_name_0123456789", "µ", "m", "M", "nf", "0", "é"]
@@ -378,7 +627,7 @@ def prim_job(r, prim, focus, prefixes, enums, v=None, minimal=False):
     return dict(tgt=["prim", prim["name"]], given=given, all=allp)
 
 
-XP_GEN = dict(i=lambda r, p, e: ("int", gen_int(r)), f=lambda r, p, e: ("flt", r.choice([gen_float(r), float("nan"), float("inf")]) if r.random() < 0.1 else gen_float(r)),
+XP_GEN = dict(a=lambda r, p, e: gen_any(r, p, e), i=lambda r, p, e: ("int", gen_int(r)), f=lambda r, p, e: ("flt", r.choice([gen_float(r), float("nan"), float("inf")]) if r.random() < 0.1 else gen_float(r)),
               d=lambda r, p, e: ("dec", gen_triple(r)), p=lambda r, p, e: ("pre", r.choice(boundary_triples()) if r.random() < 0.3 else gen_triple(r), r.choice(p)),
               l=lambda r, p, e: ("lit", gen_text(r)))
 
@@ -400,7 +649,7 @@ def ext_job(r, mode, xp_fields, prefixes, enums):
                 if kind == 4:
                     val = ("none",) if r.random() < 0.1 else XP_GEN[nm](r, prefixes, enums)
                 elif kind == 3:
-                    val = ("enum", "XE", r.choice(enums["XE"])[0])
+                    val = ("obj", "sxe", r.choice(SXE_MEMBERS)) if nm == "se" else ("enum", "XE", r.choice(enums["XE"])[0])
                 else:
                     val = value_for_kind(r, kind, fld, prefixes, enums)
                 given.append([nm, val])
@@ -433,12 +682,16 @@ def vsize(v):
     return len(json.dumps(jv(v)))
 
 
-def run_values(run, stream, kind, vals, enums, chunk=400):
-    """kind in {"scalar", "value"}"""
+def run_values(run, stream, kind, vals, enums, chunk=400, sxe=None):
+    """kind in {"scalar", "value"}; sxe given: object mode (cases are pyobj facets, evaluators chk_*_obj)"""
     outs = core.run_worker_sharded("c13", [wire(v) for v in vals], common=dict(kind=kind))
     pr = c_sres if kind == "scalar" else c_vres
-    cases = [f"({c_value(v, enums)}, {pr(o)})" for v, o in zip(vals, outs)]
-    typ, ev = ("value * sres", "run_cases chk_scalar") if kind == "scalar" else ("value * vres", "run_cases chk_value")
+    if sxe is not None:
+        cases = [f"({c_obj(facets(v, enums, sxe))}, {pr(o)})" for v, o in zip(vals, outs)]
+        typ, ev = ("pyobj * sres", "run_cases chk_scalar_obj") if kind == "scalar" else ("pyobj * vres", "run_cases chk_value_obj")
+    else:
+        cases = [f"({c_value(v, enums)}, {pr(o)})" for v, o in zip(vals, outs)]
+        typ, ev = ("value * sres", "run_cases chk_scalar") if kind == "scalar" else ("value * vres", "run_cases chk_value")
     bad = core.coq_eval_cases("C13", stream + "_" + kind, IMPORTS, typ, cases, ev, chunk=chunk)
     return outs, bad
 
@@ -463,33 +716,84 @@ def py_value(v):
         return f"h.Prefixed(number=D('{dstr(v[1])}'), prefix=h.Prefix({v[2]}))"
     if k == "dec":
         return f"D('{dstr(v[1])}')"
+    if k == "obj":
+        return py_obj(v)
     return f"<{' '.join(map(str, v))}: see harness/impl/c13.py mkval>"
 
 
-def report_values(run, stream, kind, vals, outs, bad):
+SXE_VALUES = []          # filled in from the driver's class by run()
+
+
+def show_vout(o):
+    """an implementation result of the scalar / value entry points with texts readable"""
+    def tx(x):
+        return uncp(x) if isinstance(x, list) and all(isinstance(c, int) for c in x) else x
+    if o and o[0] == "val":
+        p = o[1]
+        return ["val", [p[0]] + [tx(x) for x in p[1:]]]
+    if o and o[0] == "lit":
+        return ["lit", tx(o[1])]
+    return o
+
+
+def py_obj(v):
+    sh, c = v[1], v[2:]
+    t = lambda l: repr(uncp(l))
+    if sh == "strenum":
+        return f"enum.Enum('SE', [('M', {t(c[0])})], type=str).M"
+    if sh == "StrEnum":
+        return f"enum.StrEnum('StE', [('M', {t(c[0])})]).M"
+    if sh == "intenum":
+        return f"enum.IntEnum('IE', [('M', {c[0]})]).M"
+    if sh == "intflag":
+        return f"enum.IntFlag('IF', [('A', 1), ('B', 2)])({c[0]})"
+    if sh == "fltenum":
+        return f"enum.Enum('FE', [('M', float.fromhex('{c[0].hex()}'))], type=float).M"
+    if sh == "decenum":
+        return f"enum.Enum('DE', [('M', D('{dstr(c[0])}'))], type=D).M"
+    if sh == "bool":
+        return str(bool(c[0]))
+    if sh == "sxe":
+        return f"enum.Enum('SXE', {[(m, uncp(x)) for m, x in SXE_VALUES]!r}, type=str)[{c[0]!r}]"
+    if sh == "strsub":
+        return f"type('StrSub', (str,), dict(__str__=lambda s: 'StrSub!'))({t(c[0])})"
+    if sh == "intsub":
+        return f"type('IntSub', (int,), dict(__str__=lambda s: '77', __repr__=lambda s: '78'))({c[0]})"
+    if sh == "fltsub":
+        return f"type('FltSub', (float,), dict(__str__=lambda s: '7.5', __repr__=lambda s: '8.5'))(float.fromhex('{c[0].hex()}'))"
+    if sh == "decsub":
+        return f"type('DecSub', (D,), dict(__repr__=lambda s: 'DecSub?', __format__=lambda s, f: '7.25'))('{dstr(c[0])}')"
+    return f"<{sh} {json.dumps(jv(v)[2:])}: see harness/impl/c13.py mkobj>"
+
+
+def report_values(run, stream, kind, vals, outs, bad, objmode=False):
+    ent = kind + "-obj" if objmode else kind
     v1 = sorted([i for i, c in bad if c == 1], key=lambda i: (vsize(vals[i]), json.dumps(jv(vals[i]))))
     v2 = sorted([i for i, c in bad if c == 2], key=lambda i: (vsize(vals[i]), json.dumps(jv(vals[i]))))
     v3 = [i for i, c in bad if c == 3]
     if v1:
         i = v1[0]
         run.violation(f"C13:{kind}:{json.dumps(jv(vals[i]))}",
-                      f"{entry(kind)}({py_value(vals[i])}) does not preserve the value: {json.dumps(outs[i])[:300]}",
-                      dict(kind="impl-violates-spec", stream=stream, entry=kind, case=jv(vals[i]), impl=outs[i], failing_cases=len(v1),
-                           reproducer=f"import hdl21 as h; from decimal import Decimal as D; from {entry(kind).rsplit('.', 1)[0]} import {entry(kind).rsplit('.', 1)[1]} as f; print(f({py_value(vals[i])}))"))
+                      f"{entry(kind)}({py_value(vals[i])}) does not preserve the value: {json.dumps(show_vout(outs[i]))[:300]}",
+                      dict(kind="impl-violates-spec", stream=stream, entry=ent, case=jv(vals[i]), impl=outs[i], failing_cases=len(v1),
+                           reproducer=f"import enum, hdl21 as h; from decimal import Decimal as D; from {entry(kind).rsplit('.', 1)[0]} import {entry(kind).rsplit('.', 1)[1]} as f; print(f({py_value(vals[i])}))"))
     elif v2:
         i = v2[0]
         run.violation(f"C13:{stream}:{kind}:tie", f"model and implementation differ on {entry(kind)}({py_value(vals[i])}): {json.dumps(outs[i])[:300]} (property holds on every explored input)",
-                      dict(kind="correspondence-broken", stream=stream, entry=kind, case=jv(vals[i]), impl=outs[i], disagreeing_cases=len(v2)), found_input=False)
+                      dict(kind="correspondence-broken", stream=stream, entry=ent, case=jv(vals[i]), impl=outs[i], disagreeing_cases=len(v2)), found_input=False)
     if v3:
         i = v3[0]
         run.violation("C13:spec-validation:float-repr", f"repr annotation of {jv(vals[i])} does not read back as that float",
                       dict(kind="spec-validation", stream=stream, case=jv(vals[i])), found_input=False)
 
 
-def run_insts(run, stream, jobs, enums, chunk=250):
+def run_insts(run, stream, jobs, enums, chunk=250, sxe=None):
     outs = core.run_worker_sharded("c13", [job_wire(j) for j in jobs], common=dict(kind="inst"))
-    cases = [f"({c_call(j, enums)}, {c_ires(o)})" for j, o in zip(jobs, outs)]
-    bad = core.coq_eval_cases("C13", stream, IMPORTS, "call * ires", cases, "run_cases chk_inst", chunk=chunk)
+    cases = [f"({c_call(j, enums, sxe)}, {c_ires(o)})" for j, o in zip(jobs, outs)]
+    if sxe is not None:
+        bad = core.coq_eval_cases("C13", stream, IMPORTS, "ocall * ires", cases, "run_cases chk_inst_obj", chunk=chunk)
+    else:
+        bad = core.coq_eval_cases("C13", stream, IMPORTS, "call * ires", cases, "run_cases chk_inst", chunk=chunk)
     return outs, bad
 
 
@@ -501,7 +805,7 @@ def py_job(j):
     t = j["tgt"]
     args = ", ".join(f"{(k if isinstance(k, str) else uncp(k))!r}: {py_value(v)}" for k, v in j["given"])
     if t[0] == "prim":
-        return (f"import hdl21 as h; from decimal import Decimal as D; import hdl21.primitives as hp; p = hp.{t[1]}; m = h.Module(name='T'); "
+        return (f"import enum, hdl21 as h; from decimal import Decimal as D; import hdl21.primitives as hp; p = hp.{t[1]}; m = h.Module(name='T'); "
                 f"m.add(p(p.Params(**{{{args}}}))(**{{x.name: m.add(h.Signal(name='n_' + x.name)) for x in p.port_list}}), name='i0'); "
                 f"print(h.to_proto(m).modules[0].instances[0])")
     dom = None if t[2] is None else uncp(t[2])
@@ -509,7 +813,8 @@ def py_job(j):
             f"(see harness/impl/c13.py do_inst)")
 
 
-def report_insts(run, stream, jobs, outs, bad):
+def report_insts(run, stream, jobs, outs, bad, objmode=False):
+    ent = "inst-obj" if objmode else "inst"
     v1 = sorted([i for i, c in bad if c == 1], key=lambda i: jsize(jobs[i]))
     v2 = sorted([i for i, c in bad if c == 2], key=lambda i: jsize(jobs[i]))
     v3 = [i for i, c in bad if c == 3]
@@ -522,13 +827,13 @@ def report_insts(run, stream, jobs, outs, bad):
         run.violation(f"C13:inst:{json.dumps(job_json(jobs[i])['tgt'])}:{json.dumps(job_json(jobs[i])['given'])}",
                       f"exported Instance.parameters do not show the given values for {json.dumps(job_json(jobs[i])['tgt'])} "
                       f"with {json.dumps(job_json(jobs[i])['given'])[:300]}: {json.dumps(show_out(outs[i]))[:400]}",
-                      dict(kind="impl-violates-spec", stream=stream, entry="inst", case=job_json(jobs[i]), impl=show_out(outs[i]),
+                      dict(kind="impl-violates-spec", stream=stream, entry=ent, case=job_json(jobs[i]), impl=show_out(outs[i]),
                            failing_cases=len(v1), failure_class=list(cls), reproducer=py_job(jobs[i])))
     if not v1 and v2:
         i = v2[0]
         run.violation(f"C13:{stream}:tie", f"model and implementation differ on {json.dumps(job_json(jobs[i]))[:300]}: {json.dumps(show_out(outs[i]))[:300]} "
                       "(property holds on every explored input)",
-                      dict(kind="correspondence-broken", stream=stream, entry="inst", case=job_json(jobs[i]), impl=show_out(outs[i]),
+                      dict(kind="correspondence-broken", stream=stream, entry=ent, case=job_json(jobs[i]), impl=show_out(outs[i]),
                            disagreeing_cases=len(v2)), found_input=False)
     if v3:
         run.violation("C13:spec-validation:float-repr", f"repr annotation of a float in {json.dumps(job_json(jobs[v3[0]]))[:300]} does not read back",
@@ -581,6 +886,10 @@ def run(run, tier, seed, replay=None):
     enums = meta["enums"]
     prims = meta["prims"]
     xp_fields = meta["xp_fields"]
+    sxe = meta["sxe"]
+    SXE_VALUES[:] = [(m, x) for m, x in sxe]
+    if [m for m, _ in sxe] != SXE_MEMBERS:
+        raise RuntimeError("C13: the driver's SXE class and SXE_MEMBERS differ")
 
     if replay is not None and replay.get("case") is not None:
         ent = replay.get("entry")
@@ -595,6 +904,20 @@ def run(run, tier, seed, replay=None):
             outs, bad = run_insts(run, "replay", [j], enums)
             run.stream("replay", 1, 1, rule="the replayed case")
             report_insts(run, "replay", [j], outs, bad)
+            run.sample(dict(stream="replay", case=job_json(j), impl=show_out(outs[0])))
+        elif ent in ("scalar-obj", "value-obj"):
+            v = unjv(replay["case"])
+            check_probes(run, [v], enums, sxe)
+            outs, bad = run_values(run, "replay", ent[:-4], [v], enums, sxe=sxe)
+            run.stream("replay", 1, 1, rule="the replayed case")
+            report_values(run, "replay", ent[:-4], [v], outs, bad, objmode=True)
+            run.sample(dict(stream="replay", case=jv(v), impl=outs[0]))
+        elif ent == "inst-obj":
+            j = job_unjson(replay["case"])
+            check_probes(run, [v for _, _, v in j["all"]], enums, sxe)
+            outs, bad = run_insts(run, "replay", [j], enums, sxe=sxe)
+            run.stream("replay", 1, 1, rule="the replayed case")
+            report_insts(run, "replay", [j], outs, bad, objmode=True)
             run.sample(dict(stream="replay", case=job_json(j), impl=show_out(outs[0])))
         return
 
@@ -621,9 +944,38 @@ def run(run, tier, seed, replay=None):
     outs, bad = run_insts(run, "corpus", cj, enums)
     report_insts(run, "corpus", cj, outs, bad)
     run.sample(dict(stream="corpus", entry="inst", case=job_json(cj[2]), impl=show_out(outs[2])))
-    run.stream("corpus", 2 * len(cv) + len(cj), distinct(cv, nontrivial_value) + len({json.dumps(job_json(j)) for j in cj}),
+    # strengthening round: the seeded miss C13r2-A (a member of a (str, Enum) class exported as str(member)) and its neighbours
+    ov = [("obj", "sxe", "FAST"), ("obj", "sxe", "TYP"), ("obj", "strenum", cp("ff_n40C_1v95")), ("obj", "StrEnum", cp("abc")),
+          ("obj", "strsub", cp("abc")), ("obj", "intenum", 7), ("obj", "bool", 1), ("obj", "bool", 0), ("obj", "strlit", cp("w/5"), cp("w/5")),
+          ("obj", "strenum_v", cp("a")), ("obj", "strenum_t", cp("a")), ("obj", "litsub", cp("w/5")), ("obj", "presub", (0, 15, -1), 3),
+          ("obj", "intsub", 5), ("obj", "fltsub", 0.1), ("obj", "decsub", (0, 150, -2)), ("obj", "decenum", (0, 150, -2)), ("obj", "fltenum", 2.5),
+          ("obj", "intenum", I63), ("obj", "intflag", 3), ("obj", "strenum", cp("1e3")), ("obj", "strenum", cp(""))]
+    check_probes(run, ov, enums, sxe)
+    ncorpus = 2 * len(cv) + len(cj)
+    for kind in ("scalar", "value"):
+        ovk = [v for v in ov if ("scalar" if kind == "scalar" else "given") in SHAPES[v[1]]]
+        ncorpus += len(ovk)
+        outs, bad = run_values(run, "corpus_obj", kind, ovk, enums, sxe=sxe)
+        report_values(run, "corpus", kind, ovk, outs, bad, objmode=True)
+    oj = []
+    for v in ov:
+        oj.append(dict(tgt=["ext", "dict", None, cp("Ext")], given=[[cp("corner"), v]], all=[(cp("corner"), 4, v)]))
+    for m in SXE_MEMBERS:
+        given = [["s", ("int", 1)], ["se", ("obj", "sxe", m)]]
+        oj.append(dict(tgt=["ext", "pc", None, cp("Ext2")], given=given,
+                       all=[(cp(f[0]), f[1], dict((k, x) for k, x in given).get(f[0], tuple(f[2]))) for f in xp_fields]))
+    oj.append(prim_job(r, byname["Mos"], [f[0] for f in byname["Mos"]["fields"]].index("model"), prefixes, enums, v=("obj", "sxe", "FAST"), minimal=True))
+    oj.append(prim_job(r, byname["IdealResistor"], 0, prefixes, enums, v=("obj", "sxe", "NUM"), minimal=True))
+    oj.append(prim_job(r, byname["IdealResistor"], 0, prefixes, enums, v=("obj", "intenum", 7), minimal=True))
+    outs, bad = run_insts(run, "corpus_obj", oj, enums, sxe=sxe)
+    report_insts(run, "corpus", oj, outs, bad, objmode=True)
+    run.sample(dict(stream="corpus", entry="inst-obj", case=job_json(oj[0]), impl=show_out(outs[0])))
+    cv = cv + ov
+    cj = cj + oj
+    ncorpus += len(oj)
+    run.stream("corpus", ncorpus, distinct(cv, nontrivial_value) + len({json.dumps(job_json(j)) for j in cj}),
                rule="non-trivial = value other than None/foreign object with >= 2 characters, digits beyond one, a non-zero exponent or a non-UNIT prefix; distinct by value (and by call for instances)")
-    traces += 2 * len(cv) + len(cj)
+    traces += ncorpus
 
     # ------------------------------------------------------------------ streams scalar / value
     n = 1200 if quick else 20000
@@ -666,8 +1018,18 @@ def run(run, tier, seed, replay=None):
         jobs.append(ext_job(r, "dict", xp_fields, prefixes, enums))
     for _ in range(250 if quick else 4000):
         jobs.append(ext_job(r, "pc", xp_fields, prefixes, enums))
-    outs, bad = run_insts(run, "inst", jobs, enums)
-    report_insts(run, "inst", jobs, outs, bad)
+    # the paramclass XP has a field typed by a (str, Enum) class, whose default every call carries: those calls are printed as ocalls
+    ipc = [i for i, j in enumerate(jobs) if j["tgt"][0] == "ext" and j["tgt"][1] == "pc"]
+    ipl = [i for i, j in enumerate(jobs) if not (j["tgt"][0] == "ext" and j["tgt"][1] == "pc")]
+    outs = [None] * len(jobs)
+    o1, bad1 = run_insts(run, "inst", [jobs[i] for i in ipl], enums)
+    report_insts(run, "inst", [jobs[i] for i in ipl], o1, bad1)
+    o2, bad2 = run_insts(run, "inst_pc", [jobs[i] for i in ipc], enums, sxe=sxe)
+    report_insts(run, "inst", [jobs[i] for i in ipc], o2, bad2, objmode=True)
+    for i, o in zip(ipl, o1):
+        outs[i] = o
+    for i, o in zip(ipc, o2):
+        outs[i] = o
     rej = sum(1 for o in outs if not o.get("ok"))
     run.stream("inst", len(jobs), len({json.dumps(job_json(j)) for j in jobs if j["given"]}),
                primitive_calls=nprim, primitives=len(prims), fields=sum(len(p["fields"]) for p in prims), per_field=per_field,
@@ -681,9 +1043,71 @@ def run(run, tier, seed, replay=None):
     run.sample(dict(stream="inst", case=job_json(jobs[nprim + 3]), impl=show_out(outs[nprim + 3])))
     traces += len(jobs)
 
+    # ------------------------------------------------------------------ stream overlap (strengthening round)
+    r = core.rng(seed, "C13", "overlap")
+    per_shape = 10 if quick else 150
+    cover = {e: {t: 0 for t in ts} for e, ts in OVERLAP_TARGETS.items()}
+    hidden = {e: 0 for e in OVERLAP_TARGETS}
+    nover = 0
+    allvals = []
+    for kind in ("scalar", "value"):
+        ctx = "scalar" if kind == "scalar" else "given"
+        vals = [gen_obj(r, prefixes, ctx, shape=sh) for sh, c in SHAPES.items() if ctx in c for _ in range(per_shape)]
+        vals += [gen_any(r, prefixes, enums) for _ in range(100 if quick else 2000)]        # one-facet objects through the same evaluators
+        probes = check_probes(run, vals, enums, sxe)
+        outs, bad = run_values(run, "overlap", kind, vals, enums, sxe=sxe)
+        report_values(run, "overlap", kind, vals, outs, bad, objmode=True)
+        for v in vals:
+            pr = probes.get(json.dumps(jv(v)))
+            if pr is not None:
+                t = measured_shape(pr)
+                if t in cover[kind]:
+                    cover[kind][t] += 1
+                hidden[kind] += hides_content(pr)
+        nover += len(vals)
+        allvals += vals
+        if kind == "value":
+            k = next(i for i, v in enumerate(vals) if v[1] == "strenum")
+            run.sample(dict(stream="overlap", entry=entry(kind), case=jv(vals[k]), impl=outs[k]))
+    ojobs = overlap_jobs(r, 120 if quick else 2500, 3 if quick else 40, prims, xp_fields, prefixes, enums)
+    jvals = [v for j in ojobs for _, _, v in j["all"]]
+    probes = check_probes(run, jvals, enums, sxe)
+    outs, bad = run_insts(run, "overlap_inst", ojobs, enums, sxe=sxe)
+    report_insts(run, "overlap", ojobs, outs, bad, objmode=True)
+    for j in ojobs:
+        for _, v in j["given"]:
+            pr = probes.get(json.dumps(jv(v)))
+            if pr is not None:
+                t = measured_shape(pr)
+                if t in cover[j["entry"]]:
+                    cover[j["entry"]][t] += 1
+                hidden[j["entry"]] += hides_content(pr)
+    nover += len(ojobs)
+    orej = sum(1 for o in outs if not o.get("ok"))
+    k = next(i for i, j in enumerate(ojobs) if j["entry"] == "paramclass")
+    run.sample(dict(stream="overlap", entry="inst-obj", case=job_json(ojobs[k]), impl=show_out(outs[k])))
+    run.stream("overlap", nover, distinct([v for v in allvals + jvals if v[0] == "obj"]),
+               shapes=len(SHAPES), per_shape=per_shape, instance_calls=len(ojobs),
+               instance_calls_by_entry={e: sum(1 for j in ojobs if j["entry"] == e) for e in ("dict", "paramclass", "primitive")},
+               instance_calls_rejected=orej, rejected_fraction=round(orej / len(ojobs), 4),
+               targets_met=cover, objects_whose_str_hides_their_content=hidden,
+               rule="non-trivial = an object that passes two isinstance tests of the parameter path or whose class overrides "
+                    "__str__/__repr__/__format__; distinct by (shape, content); targets are counted on the facets MEASURED on the live objects")
+    traces += nover
+    run.coverage["strengthening_targets"] = cover
+    for e, ts in cover.items():
+        for t, cnt in ts.items():
+            if cnt == 0:
+                run.violation(f"C13:coverage:{e}:{t}", f"generator coverage target missed: no {t} object through entry point {e}",
+                              dict(kind="coverage"), found_input=False)
+    for e in ("value", "dict", "paramclass"):
+        if hidden[e] == 0:
+            run.violation(f"C13:coverage:{e}:str-hides-content", f"generator coverage target missed: no str object whose str() differs from its "
+                          f"characters through entry point {e}", dict(kind="coverage"), found_input=False)
+
     # ------------------------------------------------------------------ stream malformed
     r = core.rng(seed, "C13", "malformed")
-    mv = [("other", t) for t in ("list", "tuple", "bytes", "complex", "dict", "object", "set")] + [("enum", "NE", "ONE"), ("enum", "NE", "TWO")]
+    mv = [("other", t) for t in ("list", "tuple", "bytes", "complex", "dict", "object", "set", "fraction", "real")] + [("enum", "NE", "ONE"), ("enum", "NE", "TWO")]
     mv += [("int", z) for z in (I63, -I63 - 1, 2 ** 64, 10 ** 30, -10 ** 40)] + [("flt", float("nan")), ("flt", float("inf")), ("flt", float("-inf")), ("none",)]
     for kind in ("scalar", "value"):
         outs, bad = run_values(run, "malformed", kind, mv, enums)
